@@ -11,6 +11,7 @@ let dispatch kind args =
   | "symtab" -> C13.run kind args
   | "foldbin" | "foldun" | "litfalsy" -> C01.run kind args
   | "wffn" -> C05.run kind args
+  | "callbind" -> C14.run kind args
   | _ -> failwith ("unknown kind " ^ kind)
 
 let () =
